@@ -428,6 +428,30 @@ pub trait InstrFormat {
     fn instr_size(&self, instr: &RawInstr) -> usize { self.instr_header_size() + instr.args_blob.len() }
 }
 
+/// Convert an instruction header field to the integer type that stores it in the binary file,
+/// or emit an error if the value does not fit.  (so that it is never silently truncated)
+pub fn fit_instr_field<T, U>(emitter: &dyn Emitter, instr: &RawInstr, field: &str, value: T) -> Result<U, crate::ErrorReported>
+where
+    T: Copy + std::fmt::Display,
+    U: TryFrom<T>,
+{
+    U::try_from(value).map_err(|_| emitter.as_sized().emit(error!(
+        "in instruction {} at time {}: {} {} does not fit in {} bits",
+        instr.opcode, instr.time, field, value, 8 * std::mem::size_of::<U>(),
+    )))
+}
+
+/// Emit an error if an instruction's opcode is the value reserved for the end-of-script marker.
+pub fn forbid_reserved_opcode(emitter: &dyn Emitter, instr: &RawInstr, reserved: raw::Opcode) -> Result<(), crate::ErrorReported> {
+    if instr.opcode == reserved {
+        return Err(emitter.as_sized().emit(error!(
+            "in instruction {} at time {}: this opcode is reserved for the end-of-script marker",
+            instr.opcode, instr.time,
+        )));
+    }
+    Ok(())
+}
+
 #[derive(Debug)]
 pub enum ReadInstr {
     /// A regular instruction was read that belongs in the script.
